@@ -6,6 +6,7 @@
 package bits
 
 import (
+	"strconv"
 	"fmt"
 	"go/ast"
 	"go/constant"
@@ -1245,6 +1246,32 @@ func (ip *Interp) Eval(f *Frame, e ast.Expr, want types.Type) *Value {
 
 // ConstOf exposes constant extraction.
 func ConstOf(v Vec) (uint64, bool) { return constOf(v) }
+
+// Assign returns v with the input `name` fixed to the constant val: every term that is exactly bit k of
+// that input becomes the constant bit k of val. (Product terms are left as they are.)
+func Assign(v Vec, name string, val uint64) Vec {
+	out := make(Vec, len(v))
+	for i, b := range v {
+		nb := Bit{C: b.C, Top: b.Top}
+		for _, t := range b.Terms {
+			k := -1
+			if strings.HasPrefix(t, name+".") {
+				if n, err := strconv.Atoi(t[len(name)+1:]); err == nil {
+					k = n
+				}
+			}
+			if k < 0 {
+				nb.Terms = append(nb.Terms, t)
+				continue
+			}
+			if k < 64 && val>>uint(k)&1 == 1 {
+				nb.C = !nb.C
+			}
+		}
+		out[i] = nb
+	}
+	return out
+}
 
 // constTable: T[k] for a package-level variable T initialised by a literal of constants and a constant k.
 func (ip *Interp) constTable(fr *frame, ix *ast.IndexExpr) *Value {
